@@ -8,6 +8,13 @@ Correspondence stream `c12` (two request kinds):
   op=cs  the real `cubic_spline(…)` (natural and cyclic, constraints none/'center'/explicit) against
          `Model.CubicSpline.fit/transform`; parameters handed over: quantile knots, the matrix F returned by
          `_get_natural_f/_get_cyclic_f`, the columns of Q2 from `numpy.linalg.qr`.
+  op=uses  a HISTORY of 1-3 uses of one transform that are all handed the SAME argument objects by the caller
+         (knots as list / tuple / ndarray / formula literal, the constraint matrix), through the entry points a user
+         has: repeated direct calls with fresh state, several terms `bs(x0, knots=K) + bs(x1, knots=K)` of ONE
+         model_matrix call, successive model_matrix calls with the same formula and context; new data goes through
+         the recorded state (direct) or `ModelSpec.get_model_matrix`.  The model answers every use independently
+         from the arguments the user wrote (`Engines.C12.handle`, op "uses" = map of the single-use engines), so a
+         use that sees an earlier one (mutated argument, leaked state) disagrees.
 Parameter contracts checked per case (in `agree`): knots are the linear-interpolation quantiles of the
 model's sample; `B·F = D` (exact residual computed by the model); `c·Q2 = 0`; Q2 has orthonormal columns.
 Values are compared with tolerance 1e-9·max(1,|v|).
@@ -15,7 +22,9 @@ Values are compared with tolerance 1e-9·max(1,|v|).
 Oracle (implementation only): non-negativity and row sums 1 inside the bounds, column count = df, equality
 with an independent textbook Cox–de Boor evaluation in Fractions, each extrapolation mode's documented
 behaviour, null in -> null row out; for cr/cc: identity at the knots, equality with SciPy's natural /
-periodic interpolating cubic splines (cardinal basis), zero column means under 'center'.
+periodic interpolating cubic splines (cardinal basis), zero column means under 'center'.  For a history the
+single-use oracle is applied to every use with the knots / df / bounds THE USER GAVE (recorded interior knots =
+the given knots, column count = len(knots) + degree + intercept), not with whatever the transform recorded.
 """
 from __future__ import annotations
 
@@ -68,6 +77,10 @@ TRUSTED = [
     "by the model per case and required to be < 1e-8 (scaled), and the implementation is additionally compared with "
     "scipy.interpolate.CubicSpline by the oracle",
     "numpy.searchsorted is modelled for ascending knot arrays (count of knots < x)",
+    "histories through the formula entry points: formula parsing, context lookup, column naming `name[k]` and assembly of "
+    "the model matrix are not modelled (C01-C03); the harness reads each term's block of columns by its name prefix and its "
+    "recorded state from ModelSpec.transform_state, with ensure_full_rank=False and na_action='ignore' so that the block is "
+    "the transform's output unchanged",
 ]
 ASSUMPTIONS = [
     "bs theorems about values (partition of unity, non-negativity, local support, zero/extend modes) assume interior "
@@ -81,7 +94,12 @@ RULE = (
     "include_intercept x 5 extrapolation modes, plus a second call on new data with the recorded state; malformed stream: df and "
     "knots together, df too small, empty in-range sample, unsorted / out-of-bounds explicit knots. cs: natural/cyclic x (df | "
     "explicit knots) x constraints none/'center'/explicit x bounds x modes x second call. non-trivial = at least one interior "
-    "knot or degree >= 1 (bs) / any cs case; distinct by canonical JSON"
+    "knot or degree >= 1 (bs) / any cs case; distinct by canonical JSON. histories (300 quick / 5000 thorough, after the "
+    "single-use stream): the same argument generators (explicit knots in 3 of 4) x 1-3 uses on different data (same range as "
+    "the first use in 7 of 10 when the bounds come from the data) x knots container list/tuple/ndarray/formula literal, shared "
+    "by all uses x entry point (direct calls with fresh state, x as ndarray or pandas Series | the terms of one model_matrix "
+    "call | successive model_matrix calls; formula entry points with ensure_full_rank=False, na_action='ignore', all other "
+    "arguments through the context) x new data per use through the recorded state / ModelSpec.get_model_matrix"
 )
 TOL = 1e-9
 MODES = ["raise", "clip", "na", "zero", "extend"]
@@ -255,13 +273,72 @@ def gen_cs(rng):
                 cyclic=cyclic, mode=mode, x2=x2)
 
 
+KCONTS = ["list", "list", "list", "tuple", "ndarray"]
+
+
+def gen_hist(rng):
+    """A HISTORY of uses of one transform that are all handed the SAME argument objects (knots container,
+    constraint matrix) by the caller, through one of the entry points a user has: repeated direct calls with fresh
+    state, several terms of one formula, successive model_matrix calls.  Every use also may transform new data
+    with its recorded state (direct: the state dictionary; formula: ModelSpec.get_model_matrix)."""
+    fam = "bs" if rng.random() < 0.65 else "cs"
+    want_knots = rng.random() < 0.75
+    for _ in range(8):
+        base = gen_bs(rng) if fam == "bs" else gen_cs(rng)
+        if (base["knots"] is not None) == want_knots and not (base["df"] is not None and base["knots"] is not None):
+            break
+    entry = rng.choice(["direct", "terms", "terms", "calls", "calls"])
+    nuses = rng.choice([1, 2, 2, 2, 3, 3]) if entry != "direct" else rng.choice([2, 2, 3])
+    x0 = base.pop("x")
+    x20 = base.pop("x2")
+    base.pop("kind")
+    n = len(x0)
+    vals = [Fraction(v) for v in x0 if v is not None]
+    lo, hi = min(vals), max(vals)
+    same_len = entry == "terms"
+    m2 = None if x20 is None else len(x20)
+    uses = [dict(x=x0, x2=x20)]
+    for _ in range(nuses - 1):
+        x = gen_x(rng, n, n) if same_len else gen_x(rng, 3 if fam == "cs" else 1, 12)
+        if len(x) >= 2 and rng.random() < 0.7:
+            # same data range as the first use: the shared explicit knots stay inside the bounds of every use
+            i, j = rng.sample(range(len(x)), 2)
+            if base["lower"] is None:
+                x[i] = fs(lo)
+            if base["upper"] is None:
+                x[j] = fs(hi)
+        if same_len:
+            x2 = None if m2 is None else gen_x(rng, m2, m2)
+        else:
+            x2 = gen_x(rng, 1, 8) if rng.random() < 0.6 else None
+        uses.append(dict(x=x, x2=x2))
+    kcont = None
+    if base["knots"] is not None:
+        kcont = rng.choice(KCONTS + (["literal"] if entry != "direct" else []))
+    xcont = rng.choice(["ndarray", "series"]) if entry == "direct" else "frame"
+    return dict(kind="hist", fam=fam, entry=entry, kcont=kcont, xcont=xcont, args=base, uses=uses)
+
+
+def subcases(c):
+    """the uses of a history as independent single-use cases on the arguments THE USER WROTE"""
+    return [dict(c["args"], kind=c["fam"], x=u["x"], x2=u["x2"]) for u in c["uses"]]
+
+
 def cases(rng, tier):
     n = {"quick": 3000, "thorough": 50000, "search": 150}[tier]
     for i in range(n):
         yield gen_bs(rng) if rng.random() < 0.6 else gen_cs(rng)
+    # histories come after the single-use stream (which therefore is unchanged for a given seed)
+    for i in range({"quick": 300, "thorough": 5000, "search": 60}[tier]):
+        yield gen_hist(rng)
 
 
 def describe(c):
+    if c["kind"] == "hist":
+        a = c["args"]
+        fam = "bs" if c["fam"] == "bs" else ("cc" if a["cyclic"] else "cr")
+        how = "df" if a["df"] is not None else ("knots:" + c["kcont"] if a["knots"] is not None else "plain")
+        return f"hist:{fam},{c['entry']}x{len(c['uses'])},{how}"
     if c["kind"] == "bs":
         how = "df" if c["df"] is not None else ("knots" if c["knots"] is not None else "plain")
         return f"bs,d={c['degree']},{how},{c['mode']}"
@@ -271,6 +348,8 @@ def describe(c):
 
 
 def nontrivial(c):
+    if c["kind"] == "hist":
+        return any(nontrivial(s) for s in subcases(c))
     if c["kind"] == "cs":
         return True
     return c["degree"] >= 1 or bool(c["knots"]) or (c["df"] or 0) > 1
@@ -397,11 +476,230 @@ def impl_cs(c):
         CS._get_natural_f, CS._get_cyclic_f, numpy.linalg.qr = o_nat, o_cyc, o_qr
 
 
+# ---- histories: several uses that share the caller's argument objects
+
+
+class _CsHooks:
+    """records every F (keyed by kind and knots) and every Q2 (keyed by the constraint matrix) computed inside"""
+
+    def __enter__(self):
+        import formulaic.transforms.cubic_spline as CS
+
+        self.CS, self.F, self.Q2 = CS, {}, {}
+        self.saved = (CS._get_natural_f, CS._get_cyclic_f, numpy.linalg.qr)
+        o_nat, o_cyc, o_qr = self.saved
+
+        def key(a):
+            a = numpy.ascontiguousarray(numpy.asarray(a, dtype=float))
+            return (a.shape, a.tobytes())
+
+        self.key = key
+
+        def nat(k):
+            r = o_nat(k)
+            self.F[(False, key(k))] = numpy.array(r)
+            return r
+
+        def cyc(k):
+            r = o_cyc(k)
+            self.F[(True, key(k))] = numpy.array(r)
+            return r
+
+        def qr(a, mode="reduced"):
+            q, r = o_qr(a, mode=mode)
+            self.Q2[key(numpy.transpose(a))] = numpy.array(q)[:, numpy.asarray(a).shape[1]:]
+            return q, r
+
+        CS._get_natural_f, CS._get_cyclic_f, numpy.linalg.qr = nat, cyc, qr
+        return self
+
+    def __exit__(self, *a):
+        self.CS._get_natural_f, self.CS._get_cyclic_f, numpy.linalg.qr = self.saved
+
+
+def _root_error(e):
+    from formulaic.errors import FactorEvaluationError
+
+    while isinstance(e, FactorEvaluationError) and e.__cause__ is not None:
+        e = e.__cause__
+    return err_class(e)
+
+
+def _bs_pack(st, keys, rows):
+    return dict(
+        state=dict(lower=ffs(st["lower_bound"]), upper=ffs(st["upper_bound"]), knots=[ffs(k) for k in st["knots"]]),
+        first=dict(cols=[int(k) for k in keys], rows=rows),
+        second=None,
+    )
+
+
+def _cs_pack(st, keys, rows, hooks, kw):
+    """same observables as impl_cs for one use whose recorded state is `st`"""
+    CS = hooks.CS
+    carr = st["constraints"]
+    F = hooks.F.get((bool(st["cyclic"]), hooks.key(st["knots"])))
+    Q2 = None if carr is None else hooks.Q2.get(hooks.key(numpy.atleast_2d(carr)))
+    out = dict(
+        state=dict(
+            lower=ffs(st["lower_bound"]), upper=ffs(st["upper_bound"]), knots=[ffs(k) for k in st["knots"]],
+            cyclic=bool(st["cyclic"]),
+            constraints=None if carr is None else [[cell(v) for v in row] for row in numpy.atleast_2d(carr)],
+        ),
+        first=dict(ncols=len(keys), keys=[int(k) for k in keys], rows=rows),
+        second=None,
+        F=None if F is None else [[ffs(v) for v in row] for row in F],
+        Q2=None if Q2 is None else [[ffs(v) for v in col] for col in Q2.T],
+    )
+    out["nan_params"] = bool(
+        (F is not None and not numpy.isfinite(F).all()) or (Q2 is not None and not numpy.isfinite(Q2).all())
+        or (carr is not None and not numpy.isfinite(numpy.asarray(carr, dtype=float)).all()))
+    if Q2 is not None:
+        out["orth"] = float(numpy.abs(Q2.T @ Q2 - numpy.eye(Q2.shape[1])).max()) if Q2.shape[1] else 0.0
+    try:
+        resk = CS.cubic_spline(numpy.array(st["knots"], dtype=float), _state=copy.deepcopy(st), **kw)
+        out["at_knots"] = _cols_rows(resk, len(st["knots"]))[1]
+    except Exception as e:
+        out["at_knots"] = dict(error=err_class(e))
+    return out
+
+
+def _hist_term(c, var):
+    a = c["args"]
+    kn = "K_"
+    if c["kcont"] == "literal":
+        kn = "[" + ", ".join(repr(fl(k)) for k in a["knots"]) + "]"
+    if c["fam"] == "bs":
+        return ("bs", f"bs({var}, df=DF_, knots={kn}, degree=D_, include_intercept=I_, lower_bound=L_, "
+                      f"upper_bound=U_, extrapolation=M_)")
+    fn = "cc" if a["cyclic"] else "cr"
+    return fn, f"{fn}({var}, df=DF_, knots={kn}, lower_bound=L_, upper_bound=U_, constraints=C_, extrapolation=M_)"
+
+
+def _term_block(mat, names, fn, var):
+    import re
+
+    prefix = f"{fn}({var},"
+    idx = [i for i, nm in enumerate(names) if nm.startswith(prefix)]
+    keys = [int(re.search(r"\[(\d+)\]$", names[i]).group(1)) for i in idx]
+    vals = numpy.asarray(mat, dtype=float)
+    rows = [[cell(vals[r, i]) for i in idx] for r in range(vals.shape[0])]
+    return keys, rows
+
+
+def impl_hist(c):
+    import pandas
+
+    a = c["args"]
+    fam, entry = c["fam"], c["entry"]
+    K = None
+    if a["knots"] is not None:
+        ks = [fl(k) for k in a["knots"]]
+        K = {"list": ks, "literal": ks, "tuple": tuple(ks), "ndarray": numpy.array(ks, dtype=float)}[c["kcont"]]
+    L = None if a["lower"] is None else fl(a["lower"])
+    U = None if a["upper"] is None else fl(a["upper"])
+    if fam == "bs":
+        kw = dict(df=a["df"], knots=K, degree=a["degree"], include_intercept=a["intercept"], lower_bound=L,
+                  upper_bound=U, extrapolation=a["mode"])
+        ctx = dict(DF_=a["df"], K_=K, D_=a["degree"], I_=a["intercept"], L_=L, U_=U, M_=a["mode"])
+    else:
+        C = a["constraints"]
+        if isinstance(C, list):
+            C = numpy.array([[fl(v) for v in row] for row in C], dtype=float)
+        kw = dict(df=a["df"], knots=K, lower_bound=L, upper_bound=U, constraints=C, cyclic=a["cyclic"],
+                  extrapolation=a["mode"])
+        ctx = dict(DF_=a["df"], K_=K, L_=L, U_=U, C_=C, M_=a["mode"])
+    out = dict(uses=None, joint_first=None, joint_second=None)
+
+    with _CsHooks() as hooks:
+        if entry == "direct":
+            from formulaic.transforms.basis_spline import basis_spline
+
+            fn = basis_spline if fam == "bs" else hooks.CS.cubic_spline
+            wrap = (lambda v: pandas.Series(arr(v))) if c["xcont"] == "series" else arr
+            res = []
+            for u in c["uses"]:
+                st = {}
+                try:
+                    r = fn(wrap(u["x"]), _state=st, **kw)
+                except Exception as e:
+                    res.append(dict(error=err_class(e)))
+                    continue
+                keys, rows = _cols_rows(r, len(u["x"]))
+                o = _bs_pack(st, keys, rows) if fam == "bs" else _cs_pack(st, keys, rows, hooks, kw)
+                if u["x2"] is not None:
+                    try:
+                        r2 = fn(wrap(u["x2"]), _state=copy.deepcopy(st), **kw)
+                        k2, r2 = _cols_rows(r2, len(u["x2"]))
+                        o["second"] = dict(cols=[int(k) for k in k2], rows=r2) if fam == "bs" else dict(ncols=len(k2), rows=r2)
+                    except Exception as e:
+                        o["second"] = dict(error=err_class(e))
+                res.append(o)
+            out["uses"] = res
+        else:
+            from formulaic import model_matrix
+
+            nuses = len(c["uses"])
+            if entry == "terms":
+                groups = [list(range(nuses))]
+            else:
+                groups = [[i] for i in range(nuses)]
+            res = [None] * nuses
+            for g in groups:
+                # "calls": the same formula text, variable name and context objects on every call
+                var = (lambda i: f"x{i}") if entry == "terms" else (lambda i: "x0")
+                terms = [_hist_term(c, var(i)) for i in g]
+                formula = " + ".join(t for _, t in terms) + " - 1"
+                data = pandas.DataFrame({var(i): arr(c["uses"][i]["x"]) for i in g})
+                try:
+                    mm = model_matrix(formula, data, context=ctx, na_action="ignore", ensure_full_rank=False)
+                except Exception as e:
+                    if len(g) == 1:
+                        res[g[0]] = dict(error=_root_error(e))
+                    else:
+                        out["joint_first"] = _root_error(e)
+                    continue
+                ms = mm.model_spec
+                names = list(ms.column_names)
+                mm2 = None
+                if c["uses"][g[0]]["x2"] is not None and all(c["uses"][i]["x2"] is not None for i in g):
+                    data2 = pandas.DataFrame({var(i): arr(c["uses"][i]["x2"]) for i in g})
+                    try:
+                        mm2 = ms.get_model_matrix(data2, context=ctx)
+                    except Exception as e:
+                        mm2 = dict(error=_root_error(e))
+                for i, (fname, _) in zip(g, terms):
+                    prefix = f"{fname}({var(i)},"
+                    sts = [v for k, v in ms.transform_state.items() if k.startswith(prefix)]
+                    if len(sts) != 1:
+                        raise RuntimeError(f"{len(sts)} recorded states for the term {prefix}...)")
+                    st = sts[0]
+                    keys, rows = _term_block(mm, names, fname, var(i))
+                    o = _bs_pack(st, keys, rows) if fam == "bs" else _cs_pack(st, keys, rows, hooks, kw)
+                    if isinstance(mm2, dict):
+                        if len(g) == 1:
+                            o["second"] = mm2
+                        else:
+                            out["joint_second"] = mm2["error"]
+                    elif mm2 is not None:
+                        k2, r2 = _term_block(mm2, list(mm2.model_spec.column_names), fname, var(i))
+                        o["second"] = dict(cols=k2, rows=r2) if fam == "bs" else dict(ncols=len(k2), rows=r2)
+                    res[i] = o
+            out["uses"] = None if out["joint_first"] is not None else res
+    # what the caller's knots object holds afterwards (diagnostic only)
+    out["knots_after"] = None if K is None else [ffs(v) for v in K]
+    return out
+
+
 def impl(c):
+    if c["kind"] == "hist":
+        return impl_hist(c)
     return impl_bs(c) if c["kind"] == "bs" else impl_cs(c)
 
 
 def request(c, o):
+    if c["kind"] == "hist":
+        outs = o.get("uses") or [{}] * len(c["uses"])
+        return dict(op="uses", uses=[request(s, u) for s, u in zip(subcases(c), outs)])
     if c["kind"] == "bs":
         quant = []
         if "state" in o:
@@ -448,11 +746,41 @@ def _res_small(mat, what, scale=1.0):
     return None
 
 
+def _not_modelled(m):
+    return str(m.get("error", "")).startswith("not-modelled")
+
+
+def agree_hist(c, o, m):
+    """every use of a history against the model's INDEPENDENT answer for that use (the model is a function of the
+    arguments the user wrote and of that use's data: no use may see an earlier one)"""
+    subs = subcases(c)
+    ms = m.get("uses")
+    if not isinstance(ms, list) or len(ms) != len(subs):
+        return f"model answered {str(m)[:200]}"
+    if o.get("joint_first") is not None:
+        # one model_matrix call over all terms failed: some use must fail in the model with that error
+        if any(mi.get("error") == o["joint_first"] or _not_modelled(mi) for mi in ms):
+            return None
+        return f"model_matrix over all terms raised {o['joint_first']}, the model fits every term"
+    for i, (sc, oi, mi) in enumerate(zip(subs, o["uses"], ms)):
+        if o.get("joint_second") is not None:
+            sc, mi = dict(sc, x2=None), dict(mi, second=None)
+        w = agree(sc, oi, mi)
+        if w:
+            return f"use #{i + 1} of {len(subs)} ({c['entry']}): {w}"
+    if o.get("joint_second") is not None:
+        if not any(_not_modelled(mi) or (mi.get("second") or {}).get("error") == o["joint_second"] for mi in ms):
+            return f"get_model_matrix over all terms raised {o['joint_second']}, the model transforms every term"
+    return None
+
+
 def agree(c, o, m):
     if "driver_error" in m:
         return "driver: " + m["driver_error"][:300]
     if "harness_exception" in o:
         return "harness: " + o["harness_exception"]
+    if c["kind"] == "hist":
+        return agree_hist(c, o, m)
     if str(m.get("error", "")).startswith("not-modelled"):
         return None
     if "error" in o or "error" in m:
@@ -655,7 +983,8 @@ def oracle_bs(c, o):
         if len(want) != len(interior) or any(not close(float(a), float(b)) for a, b in zip(interior, want)):
             return f"interior knots {list(map(float, interior))} are not the equally spaced quantiles {list(map(float, want))} of the in-range data"
     if not c["df"] and c["knots"] is not None and interior != [Fraction(k) for k in c["knots"]]:
-        return "recorded interior knots differ from the knots that were passed"
+        return (f"recorded interior knots {list(map(float, interior))} differ from the knots that were passed "
+                f"{[float(Fraction(k)) for k in c['knots']]}")
     w = _oracle_bs_rows(c, st, c["x"], o["first"], "first call")
     if w:
         return w
@@ -829,15 +1158,77 @@ def oracle_cs(c, o):
     return None
 
 
+def _second_may_raise(sc, oi):
+    """extrapolation='raise' and a value of the new data outside the recorded bounds"""
+    if sc["mode"] != "raise" or sc["x2"] is None or "state" not in oi:
+        return False
+    lo, hi = Fraction(oi["state"]["lower"]), Fraction(oi["state"]["upper"])
+    return any(v is not None and (Fraction(v) < lo or Fraction(v) > hi) for v in sc["x2"])
+
+
+def oracle_hist(c, o):
+    """The property holds for EVERY use of the transform on the arguments the user wrote: each use of a history is
+    judged by the single-use oracle against the user's knots / df / bounds, whatever was used before it with the
+    same argument objects."""
+    subs = subcases(c)
+    one = oracle_bs if c["fam"] == "bs" else oracle_cs
+    n = len(subs)
+    if o.get("joint_first") is not None:
+        if c["fam"] == "bs":
+            must = all(_bs_expected_error(sc) is None for sc in subs)
+        else:
+            must = all(_cs_must_succeed(sc) for sc in subs)
+        if must:
+            return (f"model_matrix with {n} {c['fam']} terms sharing their arguments raised {o['joint_first']} although "
+                    f"every term has valid arguments")
+        return None
+    fails = []
+    for i, (sc, oi) in enumerate(zip(subs, o["uses"])):
+        if o.get("joint_second") is not None:
+            sc = dict(sc, x2=None)
+        w = one(sc, oi)
+        if w:
+            fails.append((classify(sc, oi, w) is not None, i, w))
+    if fails:
+        # report a use that is not an already known finding, if there is one
+        _, i, w = min(fails)
+        extra = ""
+        if c["kcont"] not in (None, "literal") and o.get("knots_after") is not None and \
+                [Fraction(v) for v in o["knots_after"]] != [Fraction(k) for k in c["args"]["knots"]]:
+            extra = (f"; the caller's knots {c['kcont']} now holds "
+                     f"{[float(Fraction(v)) for v in o['knots_after']]}")
+        return (f"use #{i + 1} of {n} ({c['entry']}, knots given as {c['kcont']}, same argument objects in "
+                f"every use): {w}{extra}")
+    if o.get("joint_second") is not None and not any(_second_may_raise(sc, oi) for sc, oi in zip(subs, o["uses"])):
+        return (f"get_model_matrix on new data raised {o['joint_second']} although no term has extrapolation='raise' "
+                f"with a value outside its recorded bounds")
+    return None
+
+
 def oracle(c, o):
     if "harness_exception" in o:
         return "harness could not run the implementation: " + o["harness_exception"]
+    if c["kind"] == "hist":
+        return oracle_hist(c, o)
     return oracle_bs(c, o) if c["kind"] == "bs" else oracle_cs(c, o)
 
 
 def classify(c, o, why):
     """known finding C12-F1: bs, extrapolation='extend', an interior knot coincides with a bound and a value
     lies strictly beyond that bound: the row is the boundary row, not the polynomial extension."""
+    if c["kind"] == "hist":
+        # a history hits a known finding only if every failing use does; judge the uses one by one
+        if not isinstance(o.get("uses"), list):
+            return None
+        one = oracle_bs if c["fam"] == "bs" else oracle_cs
+        ids = set()
+        for sc, oi in zip(subcases(c), o["uses"]):
+            if o.get("joint_second") is not None:
+                sc = dict(sc, x2=None)
+            w = one(sc, oi)
+            if w:
+                ids.add(classify(sc, oi, w))
+        return ids.pop() if len(ids) == 1 else None
     if c["kind"] != "bs" or c["mode"] != "extend" or "state" not in o or "polynomial extension" not in str(why) and "extended row" not in str(why):
         return None
     d = c["degree"]
@@ -867,7 +1258,10 @@ LEVEL_TEXT = (
     "glued real function is twice differentiable everywhere); "
     "and that absorbing the centering constraint gives exactly zero column means whenever Q2 is orthogonal to the constraint. "
     "The models are tied to the code by a differential correspondence on every run; quantiles, linear solves and QR enter as "
-    "parameters whose contracts are checked numerically per case."
+    "parameters whose contracts are checked numerically per case. The theorems are about fit/transform as FUNCTIONS of the "
+    "arguments the user wrote (bs_ncols_knots: explicit knots ks give len(ks) + degree + intercept columns); that the code is "
+    "such a function at every use - also when the same knots / constraints objects are handed to several terms, several "
+    "model_matrix calls or repeated direct calls - is checked by the history stream of the correspondence."
 )
 LEVEL_NOTE = (
     "Partial: numpy.nanquantile / solve_banded / solve / qr are parameters (contracts checked per case, not proved); float rounding "
